@@ -41,7 +41,7 @@ REQUIRED_THEOREMS = ["Gv.Props.C03." + n for n in [
     "phylip_counterexample_alloc_panic", "phylip_patched_witness",
     "partition_counterexample_overflow_panic", "partition_patched_witness", "addRange_in_bounds", "newPSet_inv",
     "partition_outcome", "phylip_outcome_partial", "phylip_multi_wellformed", "clustal_outcome_partial",
-    "nexus_outcome_partial", "clustal_no_panic", "phylip_no_panic", "nexus_no_panic", "nexus_outcome_fixed"]]
+    "nexus_outcome_partial", "clustal_no_panic", "phylip_no_panic", "nexus_no_panic", "nexus_outcome_fixed", "clustal_no_hang", "clustal_outcome_fixed_partial"]]
 TRUSTED = ["bufio.Reader / UTF-8 rune decoding (inputs with bytes >= 128 are judged by the predicate only)",
            "python watchdog: hang = no answer within TIMEOUT",
            "tools/extract/fmtfacts.go: recognises the proposed guards syntactically; the models are parametric in these facts"]
@@ -69,8 +69,8 @@ PARTIAL = [
     "Nexus: consistency of a success with the declared ntax / nchar is checked by the oracle predicate on every run, "
     "not proved",
     "Clustal: proved: a success is non-empty, rectangular, distinct names (clustal_outcome_partial), the repaired parser "
-    "never panics (clustal_no_panic); OPEN: at least one column (needs the loop invariant that sequence tokens are "
-    "non-empty), never hang",
+    "never panics and never hangs (clustal_no_panic, clustal_no_hang, clustal_outcome_fixed_partial); OPEN: at least one "
+    "column (needs the loop invariant that sequence tokens are non-empty)",
     "ParseAlignmentAuto: modelled in the oracle as a dispatch over the single-parser models; no separate theorem",
     "inputs with bytes >= 128 (UTF-8 decoding) and Phylip allocations of 2^27..2^44 entries: predicate only, no model",
 ]
